@@ -11,20 +11,38 @@
 """
 from harness.extract_tables import HEADER, chars
 
-ENCODINGS = ['utf-8', 'ascii', 'latin-1', 'utf-16']
+# the four codecs the oracle always uses first, then single-byte code pages whose repertoire is neither a
+# prefix of Unicode nor a superset of latin-1 (the euro sign, Cyrillic, Greek, box drawing) and utf-32
+ENCODINGS = ['utf-8', 'ascii', 'latin-1', 'utf-16',
+             'utf-32', 'iso-8859-15', 'cp1252', 'koi8-r', 'iso-8859-2', 'cp1251', 'iso-8859-7', 'mac-roman', 'cp437']
+
+_SCALARS = list(range(0, 0xd800)) + list(range(0xe000, 0x110000))
+_ALL = []
 
 
 def _ranges(enc):
+    """the code points `enc` can encode, as inclusive ranges.  Every scalar value goes through the codec's
+    encoder once (one call over the string of all scalars; an error handler records what the codec refuses and
+    resumes), so the table is the codec's own verdict, not a reading of its decoding table.  (Checked to give
+    the same table as encoding the scalars one by one with errors='strict'.)"""
+    import codecs
+    refused = []
+
+    def record(e):
+        refused.append((e.start, e.end))
+        return ('', e.end)
+    codecs.register_error('c02-probe', record)
+    if not _ALL:
+        _ALL.append(''.join(map(chr, _SCALARS)))
+    _ALL[0].encode(enc, 'c02-probe')
+    ok = bytearray(b'\x01') * len(_SCALARS)
+    for a, b in refused:
+        ok[a:b] = b'\x00' * (b - a)
     out = []
     lo = None
     prev = None
-    for cp in list(range(0, 0xd800)) + list(range(0xe000, 0x110000)):
-        try:
-            chr(cp).encode(enc)
-            ok = True
-        except UnicodeEncodeError:
-            ok = False
-        if ok:
+    for i, cp in enumerate(_SCALARS):
+        if ok[i]:
             if lo is None:
                 lo = cp
             elif prev != cp - 1 and not (prev == 0xd7ff and cp == 0xe000):
